@@ -972,9 +972,26 @@ def gen_pair(rng):
 def gen_shift(rng):
     xs, xv, h = gen_grid(rng)
     n = len(xs)
-    ys = [fmt(y) for y in smooth_values(rng, xv)]
+    yv = smooth_values(rng, xv)
     flags = rand_flags(rng, n)
     typ = rng.choice([None, "non-bonded", "bond", "angle", "dihedral", "bonded"])
+    if typ in ("bond", "angle", "dihedral", "bonded") and n >= 6 and rng.random() < 0.5:
+        # out-of-range head and tail (flags o / u) whose values lie below the
+        # valid region, the head lowest: every reading of "the minimum" that
+        # mixes valid and invalid points differently gives a different shift
+        a = rng.randint(1, max(1, n // 4))
+        b = rng.randint(1, max(1, n // 4))
+        lo = min(yv) - rng.uniform(0.5, 3.0) * (1.0 + max(abs(y) for y in yv))
+        flags = [rng.choice("ou")] * a + ["i"] * (n - a - b) + [rng.choice("ou")] * b
+        for j in range(a):
+            yv[j] = 2 * lo - rng.uniform(0, 1)
+        for j in range(n - b, n):
+            yv[j] = lo + rng.uniform(0, 0.3)
+        if rng.random() < 0.3 and n - a - b >= 3:   # an interior gap as well
+            g = rng.randint(a + 1, n - b - 2)
+            flags[g] = "u"
+            yv[g] = lo - rng.uniform(0, 0.2)
+    ys = [fmt(y) for y in yv]
     args = (["--type", typ] if typ else []) + ["in.pot", "out.pot"]
     inputs = {"in.pot": table_text(xs, ys, flags)}
 
